@@ -1192,6 +1192,67 @@ static void chainCase(long k)
 }
 
 // ------------------------------------------------------------------ main
+// ------------------------------------------------------------------ part (d): very large counts
+// The count is a 64-bit value; holding 2^31 .. 2^33 references for real would take that many refInc() calls (and as
+// many handles would take tens of gigabytes). The monitor instead moves the count there directly: it locates the
+// counter inside the object (the first 64-bit word behind the vtable pointer), proves that this is the counter by
+// watching refInc()/refDec()/useCount() move exactly that word, sets it to "B references are held elsewhere", and
+// then runs ordinary handle traffic and releases across the boundary. While B references remain nothing may be
+// destroyed and useCount() must say so; the last release destroys exactly once.
+static void hugeCountCase(long k)
+{
+  static const long long Bs[] = {0x7fffffffLL, 0x80000000LL, 0xffffffffLL, 0x100000000LL, 0x100000001LL, 0x200000000LL, 0x300000000LL, 0x7fffffff00000000LL};
+  long long B = Bs[k % 8];
+  std::string ctx = "#" + std::to_string(k) + " huge count: " + std::to_string(B) + " references held elsewhere";
+  Track trk;
+  Derived *o = new Derived(&trk, 5);
+  memory::RefCountedObject *rc = o;
+  std::atomic<long long> *cnt = reinterpret_cast<std::atomic<long long> *>(reinterpret_cast<char *>(rc) + sizeof(void *));
+  // is this word the counter?
+  bool isCounter = cnt->load() == 1 && o->useCount() == 1;
+  o->refInc();
+  isCounter = isCounter && cnt->load() == 2 && o->useCount() == 2;
+  o->refDec();
+  isCounter = isCounter && cnt->load() == 1;
+  if (!isCounter) {
+    vh::inconclusive("huge-count scenario: the reference counter was not found behind the vtable pointer; scenario skipped");
+    o->refDec();
+    return;
+  }
+  cnt->store(B + 1);  // the creator's reference plus B held elsewhere
+  bool ok = true;
+  {
+    DP h1(o), h2(h1);
+    BP hb(h2);
+    if (o->useCount() != B + 4)
+      vh::violation("C08:huge-count:useCount", "useCount()=" + std::to_string(o->useCount()) + " with three handles on top of " + std::to_string(B + 1) + " references", ctx), ok = false;
+  }
+  if (trk.baseDtor.load() != 0)
+    vh::violation("C08:huge-count:destroyed-while-referenced", "object destroyed by a handle release although " + std::to_string(B + 1) + " references remain", ctx), ok = false;
+  if (ok) {
+    o->refDec();  // the creator lets go: B references remain
+    if (trk.baseDtor.load() != 0)
+      vh::violation("C08:huge-count:destroyed-while-referenced", "object destroyed by the creator's refDec() although " + std::to_string(B) + " references remain", ctx), ok = false;
+    else if (o->useCount() != B)
+      vh::violation("C08:huge-count:useCount", "useCount()=" + std::to_string(o->useCount()) + " expected " + std::to_string(B), ctx), ok = false;
+  }
+  if (ok) {
+    // two more releases across the boundary, then the references held elsewhere go away but one
+    o->refDec();
+    o->refDec();
+    if (trk.baseDtor.load() != 0 || o->useCount() != B - 2)
+      vh::violation("C08:huge-count:destroyed-while-referenced", "object destroyed or miscounted after two more releases (useCount " + std::to_string(trk.baseDtor.load() ? -1 : o->useCount()) + ", expected " + std::to_string(B - 2) + ")", ctx), ok = false;
+  }
+  if (ok) {
+    cnt->store(1);
+    o->refDec();
+    if (trk.baseDtor.load() != 1 || trk.derivedDtor.load() != 1)
+      vh::violation("C08:huge-count:last-release-did-not-destroy-once", "destructor calls after the last release: base " + std::to_string(trk.baseDtor.load()) + ", derived " + std::to_string(trk.derivedDtor.load()), ctx);
+  }
+  vh::count("huge_count_scenarios");
+  vh::evaluated(vh::hash64(808, (uint64_t)B), true);
+}
+
 int main(int argc, char **argv)
 {
   vh::init(argc, argv);
@@ -1200,7 +1261,8 @@ int main(int argc, char **argv)
       "families over 3 pointee slots and 5 handle slots, then release of everything, <= 40 operations); every operation is "
       "followed by the full model comparison. distinct = hash of the operation sequence; non-trivial = at least one "
       "handle-creating/assigning operation and at least one object whose last reference was released by a handle operation "
-      "(not by refDec). (b) one evaluation per (thread count, round)");
+      "(not by refDec). (b) one evaluation per (thread count, round). (d) counts of 2^31 .. 2^63 references: the monitor sets the "
+      "64-bit counter (located and verified through refInc/refDec/useCount) and runs handle traffic and releases across the boundary");
   std::string variant = vh::st().variant;
   bool tsan           = variant.find("tsan") != std::string::npos;
   bool asan           = variant.find("asan") != std::string::npos;
@@ -1233,6 +1295,10 @@ int main(int argc, char **argv)
       }
     }
   }
+
+  // (d) very large counts
+  vh::forkedCases(
+      16, [](long k) { hugeCountCase(k); }, 20000, 1, [](long k) { return "C08-huge-count #" + std::to_string(k); });
 
   // (c) linked structures
   if (vh::st().onlyCase < 0 || true) {
